@@ -13,7 +13,7 @@ EXPLANATION = (
     "index 0 before the sort and restored to index 0 after it; (R-GROUP) a new group is started exactly on: no previous part, previous part not a require group, different kind, or line distance > 1; (R-SORTGUARD) the sort is reached only if every member is Normal; (R-SKIP d) the Context used to ask should_format_node "
     "for group members is threaded through check_toggle_formatting; (R-GROUPFILL) groups only receive "
     "LocalAssignment statements. Not decided: the permutation property itself (that the output is the stable name-ordered permutation)."
-    "Later rounds: (R-SORT(toggle)) every emit of a partition's statements follows a walk showing them to check_toggle_formatting, and the toggle calls of the walk share one state; (R-ARMS) frozen feature-gated arms of the sorter's predicates.")
+    "Later rounds: (R-SORT(toggle)) every emit of a partition's statements follows a walk showing them to check_toggle_formatting, and the toggle calls of the walk share one state; (R-ARMS) frozen feature-gated arms of the sorter's predicates. Round 22: (R-GROUP(total)) no statement is left out of the partitions.")
 ASSUMPTIONS = ["slice::sort_by_key is stable (std contract)", "rustc MIR and Instance::try_resolve are trusted"]
 
 REORDER = re.compile(r"::(sort|sort_by|sort_by_key|sort_by_cached_key|sort_unstable|sort_unstable_by|"
